@@ -1,6 +1,8 @@
 """C20 - Workers always run with exactly the configured user and group (mechanism clauses)."""
 import ast
 
+from ..absint import Explorer, UNKNOWN
+
 from ..astutil import norm, const, NO, compare, tail, names
 from ..index import AnalysisError, walk_own
 from ..defassign import possibly_unbound
@@ -178,18 +180,28 @@ def r6(ctx):
         bad = [c for c in ch if any(c in g.reachable([u], follow_exc=False) for u in ul)]
         ctx.check("C20.R6", not bad, key(f, "chown-before-unlink"), site(f, ch[0]), "the heartbeat file is chowned by path after the path was unlinked (ENOENT)", "chown before unlink")
 
-        def differs(e):
-            c = compare(e)
-            if c and c[1] in (ast.NotEq, ast.Eq) and ("uid" in norm(e) or "gid" in norm(e)) and ("geteuid" in norm(e) or "getegid" in norm(e)):
-                return -1 if c[1] is ast.NotEq else +1
+        # evaluated: the chown happens exactly when the configured uid or gid differs from the master's effective ids
+        # (however the condition is spelled: `a != x or b != y`, `not (a == x and b == y)`, a helper predicate)
+        CFGP = next((p_ for p_ in f.params[1:] if p_.startswith("cfg") or p_.startswith("conf")), None)
+        ctx.need(CFGP, "C20.R6: cfg parameter of WorkerTmp.__init__ not found")
+
+        def atom_of(e):
+            if isinstance(e, ast.Call) and not e.args:
+                q = repo.call_target(f.module, f, e)
+                if q in ("os.geteuid", "os.getuid"):
+                    return "EUID"
+                if q in ("os.getegid", "os.getgid"):
+                    return "EGID"
             return None
-        # chown is skipped only when both ids already match
-        idt = [t for t in g.tests() if differs(t.ast) is not None]
-        kinds = set("uid" if "uid" in norm(t.ast) else "gid" for t in idt)
-        skip = [(t, "false" if differs(t.ast) == -1 else "true") for t in idt]
-        p = g.path(g.entry, [g.exit], without_nodes=ch, without_edges=skip, follow_exc=False) if kinds == {"uid", "gid"} else [g.entry]
-        ctx.check("C20.R6", kinds == {"uid", "gid"} and p is None, key(f, "chown-unless-both-match"), site(f, ch[0]),
-                  "the heartbeat file's chown is skipped although one of uid/gid differs from the master's", "chown unless both ids already match")
+        for uid, gid in ((0, 0), (33, 0), (0, 33), (33, 33)):
+            ex = Explorer(f, atom_of=atom_of)
+            outs = ex.run(g.entry, {"EUID": 0, "EGID": 0, CFGP + ".uid": uid, CFGP + ".gid": gid, CFGP + ".umask": 0, CFGP + ".worker_tmp_dir": None}, watch={n.id: "chown" for n in ch})
+            got = set("chown" in o.events for o in outs if o.kind in ("return", "raise"))
+            want = (uid, gid) != (0, 0)
+            ctx.check("C20.R6", got == {want}, key(f, "chown-unless-both-match|%s|%s" % (uid, gid)), site(f, ch[0]),
+                      "with the master running as 0:0 and workers configured as %s:%s the heartbeat file is %s (required: %s): a worker that changed only its user or only its group "
+                      "cannot update the file and is killed as hung" % (uid, gid, "chowned on some paths only" if len(got) > 1 else ("chowned" if got == {True} else "not chowned"), "chowned" if want else "left alone"),
+                      "chown iff an id differs")
     for c in calls_to(repo, f, [UTIL + ".chown", "os.chown"]):
         ctx.check("C20.R6", [cfg_attr(a) for a in c.args[1:3]] == ["uid", "gid"], key(f, "chown-args"), site(f, c), "the heartbeat file is not chowned to (cfg.uid, cfg.gid)", "chown(.., cfg.uid, cfg.gid)")
     fb = ctx.fn(repo.func("gunicorn.sock.UnixSocket.bind"))
